@@ -1451,6 +1451,25 @@ def check_units(ctx, us, hres, mode="unit", pool=False):
 
 
 # --------------------------------------------------------------------------------------------- main
+def selftest(ctx, harnesses):
+    """positive controls, every run: a lost block must be reported as a leak, a read of freed / out-of-bounds heap memory as such
+    (sanitized builds), a read of memory given back with munmap must kill the process (all builds), a clean run must be clean"""
+    for name, h, san in harnesses:
+        want = {"none": ("ok",), "unmapped": ("segv", "signal")}
+        if san:
+            want.update({"leak": ("leak",), "uaf": ("use-after-free",), "overflow": ("heap-overflow",)})
+        us = []
+        for w in want:
+            u = Unit("st_" + w, "selftest", "selftest " + w)
+            u.add("x")                   # (one answer line: `selftest <what>`)
+            us.append(u)
+        for u, (hans, hexit) in zs(us, run_harness(ctx, h, us, sanitized=san)):
+            w = u.args.split()[1]
+            if hexit[0] not in want[w]:
+                raise vlib.CheckFailure("self-test of the %s build: provoked `%s`, classified as `%s` (expected %s): the instrumentation does not see it" % (name, w, " ".join(hexit)[:120], "/".join(want[w])))
+    return {name: "leak, use-after-free, overflow, unmapped, clean" if san else "unmapped, clean" for name, _, san in harnesses}
+
+
 def image_specs(ctx):
     if ctx.quick():
         return [("gzip", 8192), ("xz", 8192), ("gzip", 32768)]
@@ -1469,6 +1488,7 @@ def run(ctx):
             ctx.violation("proof:C19:leanchecker", "leanchecker rejects the compiled proofs of Sqfs.Props.C19: " + lc_out[-600:], {"leanchecker": lc_out}, found_input=False)
     harness, gen = build(ctx)
     hp = build_pool(ctx)
+    ctx.cov["instrumentation_selftest"] = selftest(ctx, [("malloc/ASan", harness, True), ("pool/ASan", hp["asan"], True), ("pool/uninstrumented", hp["plain"], False)])
     specs = image_specs(ctx)
     imgs, files = make_images(ctx, gen, specs)
     ikeys = [c if b == 8192 else "%s@%d" % (c, b) for c, b in specs]
